@@ -231,6 +231,75 @@ func contractMentions(c *Contract, id string) bool {
 	return false
 }
 
+// taintByNewCode: every obligation is asserted and then assumed for the rest of its path. An
+// obligation that was never discharged on the unchanged tree (it belongs to code the change
+// introduced) is not reported as a violation unless its counterexample replays, so whatever was
+// proved *after* it on the same path rests on an unproved assumption and is not counted as
+// discharged. Obligations of the baseline (any property) are reported by their own checks.
+func taintByNewCode(mine []*Obligation, killers []*Obligation, opt dischargeOpts, anyBase map[string]bool) {
+	var unknown []*Obligation
+	seen := map[*Obligation]bool{}
+	// a path that ends at an assertion which is constantly false was not followed to the function's
+	// returns: if that assertion belongs to new code and is not refuted as unreachable, nothing
+	// claimed about the function is established on that path
+	var newKillers []*Obligation
+	for _, k := range killers {
+		if !anyBase[normOb(k.Name)] {
+			newKillers = append(newKillers, k)
+			if k.Result == nil {
+				unknown = append(unknown, k)
+				seen[k] = true
+			}
+		}
+	}
+	for _, o := range mine {
+		for n := o.prior; n != nil; n = n.prev {
+			p := n.ob
+			if seen[p] {
+				break // the rest of the chain was visited through another obligation
+			}
+			seen[p] = true
+			if p.Result == nil && !anyBase[normOb(p.Name)] {
+				unknown = append(unknown, p)
+			}
+		}
+	}
+	if os.Getenv("GOVC_DEBUG_TAINT") != "" {
+		fmt.Fprintf(os.Stderr, "taint: %d mine, %d seen priors, %d unknown\n", len(mine), len(seen), len(unknown))
+		for _, u := range unknown {
+			fmt.Fprintln(os.Stderr, "   ", u.Name)
+		}
+	}
+	if len(unknown) == 0 {
+		return
+	}
+	discharge(unknown, opt)
+	for _, k := range newKillers {
+		if k.Result != nil && k.Result.Status != "unsat" {
+			for _, o := range mine {
+				if o.Result != nil && o.Result.Status == "unsat" && o != k {
+					o.Result = &SolverResult{Status: "unknown", All: map[string]string{},
+						Raw: "a path of this function ends at an assertion that is not discharged and lies in code the baseline does not cover: " + k.Name + " (" + k.Desc + "); the function was not verified on that path"}
+				}
+			}
+			return
+		}
+	}
+	for _, o := range mine {
+		if o.Result == nil || o.Result.Status != "unsat" {
+			continue
+		}
+		for n := o.prior; n != nil; n = n.prev {
+			p := n.ob
+			if p.Result != nil && p.Result.Status != "unsat" && !anyBase[normOb(p.Name)] {
+				o.Result = &SolverResult{Status: "unknown", All: map[string]string{},
+					Raw: "proved only under an assumption that is itself not discharged: " + p.Name + " (" + p.Desc + "), raised earlier on the same path in code the baseline does not cover"}
+				break
+			}
+		}
+	}
+}
+
 // loadFactor is max(1, 1-minute load average / cores), capped at 6.
 func loadFactor() float64 {
 	data, err := os.ReadFile("/proc/loadavg")
@@ -260,6 +329,12 @@ func runProperty(p *Program, cfg *PropConfig, tier string, verbose bool) *PropRe
 	// running side by side) does not turn discharged obligations into time-outs
 	lf := loadFactor()
 	opt.timeoutMs = int(float64(opt.timeoutMs) * lf)
+	anyBase := map[string]bool{}
+	for _, names := range loadBaseline() {
+		for _, n := range names {
+			anyBase[normOb(n)] = true
+		}
+	}
 	solveStart := time.Now()
 	type fnOut struct {
 		rep  *FnReport
@@ -295,6 +370,7 @@ func runProperty(p *Program, cfg *PropConfig, tier string, verbose bool) *PropRe
 			}
 			if rep.Panic == "" && rep.Aborted == "" {
 				discharge(mine, opt)
+				taintByNewCode(mine, rep.Killers, opt, anyBase)
 			} else {
 				// an incompletely explored function proves nothing
 				for _, o := range mine {
